@@ -31,6 +31,11 @@ def gen(tier, seed):
             for dk in dks:
                 yield 'pbkdf2 %s %s %s %d %d' % (d, rng.data(rng.choice([0, 1, 8, 64, 65, 200])), rng.data(rng.choice([0, 1, 8, 16, 100])), c, dk)
         yield 'pbkdf2 %s %s %s %d %d' % (d, rng.data(8), rng.data(8), rng.rng(200, 1000), 3 * hl + 5)
+    # block index above 2^16 (and, thorough, a second digest): INT(i) must stay a 32-bit big-endian counter
+    yield 'pbkdf2 sha1 %s %s 1 %d' % (rng.data(8), rng.data(8), 65537 * 20 + 3)
+    if thorough:
+        yield 'pbkdf2 sha256 %s %s 1 %d' % (rng.data(8), rng.data(8), 65538 * 32 + 1)
+        yield 'pbkdf2 sha512 %s %s 2 %d' % (rng.data(8), rng.data(8), 65536 * 64 + 65)
     grid = [(ln, r, p) for ln in range(1, 11) for r in range(1, 9) for p in range(1, 5)]
     reps = 2 if thorough else 1
     for rep in range(reps):
@@ -59,7 +64,11 @@ def check(line, toks):
             return []
         exp = [hx(o.hkdf_expand(f[1], expand(f[2]), expand(f[3]), L))]
     elif op == 'pbkdf2':
-        exp = [hx(o.pbkdf2(f[1], expand(f[2]), expand(f[3]), int(f[4]), int(f[5])))]
+        if int(f[5]) > 100000 and f[1] in ('sha1', 'sha256', 'sha512'):
+            import hashlib
+            exp = [hx(hashlib.pbkdf2_hmac(f[1], expand(f[2]), expand(f[3]), int(f[4]), int(f[5])))]
+        else:
+            exp = [hx(o.pbkdf2(f[1], expand(f[2]), expand(f[3]), int(f[4]), int(f[5])))]
     elif op == 'scrypt':
         exp = [hx(o.scrypt(expand(f[1]), expand(f[2]), int(f[3]), int(f[4]), int(f[5]), int(f[6])))]
     if toks != exp:
